@@ -15,6 +15,7 @@
 #include "verif.h"
 #include <set>
 #include <iostream>
+#include <cstdlib>
 #include <sstream>
 #include <map>
 #include <vector>
@@ -120,7 +121,24 @@ int main(int argc, char **argv)
     rec_listener l(s);
     try
     {
-        s.read(files);
+        if (getenv("PROBE_INCREMENTAL") && files.size() > 1)
+        { // the way the executor / the interactive front ends use the solver: read, solve, read more, solve again
+            for (size_t i = 0; i + 1 < files.size(); ++i)
+            {
+                s.read(std::vector<std::string>({files[i]}));
+                if (!s.solve())
+                {
+                    std::cout << "@@READ ok" << std::endl;
+                    std::cout << "@@SOLVE false" << std::endl;
+                    return 0;
+                }
+                while (!s.root_level()) // new requirements are read at root level (as deliberative_executor.cpp does)..
+                    s.get_sat_core().pop();
+            }
+            s.read(std::vector<std::string>({files.back()}));
+        }
+        else
+            s.read(files);
         std::cout << "@@READ ok" << std::endl;
     }
     catch (const std::exception &ex)
